@@ -17,11 +17,12 @@ fn scenario(id: &str) -> Option<&'static dyn Scenario> {
         "C03" => &scen::hist::C03,
         "C10" => &scen::vecs::C10,
         "C05" => &scen::alias::C05,
+        "C06" => &scen::registry::C06,
         _ => return None,
     })
 }
 
-pub const ALL: &[&str] = &["C01", "C02", "C03", "C05", "C10", "C11"];
+pub const ALL: &[&str] = &["C01", "C02", "C03", "C05", "C06", "C10", "C11"];
 
 fn tier_of(s: &str) -> Tier {
     match s {
